@@ -219,6 +219,91 @@ def split_for_model(url, direction):
     return [hs(p.scheme), opt(hs, p.username), opt(hs, p.password), hs(host), opt(str, p.port), hs(p.path), hs(p.query), hs(p.fragment)]
 
 
+
+def opaque_for(url, direction=None):
+    """evaluate the model's opaque parameters for this URL with the real library:
+    (bracket_ok, nfkc_ok, raw host text, converted host or None)"""
+    from werkzeug.urls import _decode_idna
+
+    try:
+        sp = urlsplit(url)
+    except ValueError as e:
+        msg = str(e)
+        if msg == "Invalid IPv6 URL":
+            return True, True, "", None  # decided by the model itself (bracket mismatch)
+        if "NFKC" in msg:
+            return True, False, "", None
+        return False, True, "", None  # _check_bracketed_host (ipaddress) rejected the host
+    raw = sp._hostinfo[0] or ""
+    conv = None
+    if direction and sp.hostname:
+        try:
+            conv = sp.hostname.encode("idna").decode("ascii") if direction == "iri2uri" else _decode_idna(sp.hostname)
+        except UnicodeError:
+            conv = None
+    return True, True, raw, conv
+
+
+WEIRD_PREFIX = ["", "", "", " ", "\x00 ", "\t", "//", "/", "http:", "HtTp://", "a+b-c.d://", "1http://", "://", "http:/", "http:///", "http:////", "%61:", "é:", "x:"]
+WEIRD_NETLOC = ["h", "h:80", "h:", "h:0080", "h:99999", "h:8a", "h:٣", "u@h", "u:p@h", "u:p:q@h", "a@b@h", "@h", ":@h", "u:@h", "[::1]", "[::1]:5", "[::1]x", "x[::1]", "[::1", "::1]", "[v1.x]", "[vz]", "[1.2.3.4]", "[::1%25eth0]", "[nope]", "u@[::1]:8", "H.Example", "bücher.example", "ℋ.example", "a\tb", "h\n", "fo⁄o.example", "ａ.example", ""]
+WEIRD_REST = ["", "/", "/p", "/p?q", "/p?q#f", "?q", "#f", "/p#f?x", "/a?b?c#d#e", "//x", "/\tp\r\n", "/ é", "/%41?%42#%43", "p", ";x"]
+
+
+def rand_weird_url(rng):
+    r = rng.random()
+    if r < 0.5:
+        return rng.choice(WEIRD_PREFIX) + rng.choice(["", "//"]) + rng.choice(WEIRD_NETLOC) + rng.choice(WEIRD_REST)
+    if r < 0.8:
+        return rand_url(rng, malformed=0.05)
+    u = rand_url(rng)
+    i = rng.randrange(len(u) + 1)
+    return u[:i] + rng.choice(["\t", "\n", " ", "[", "]", "@", ":", "//", "#", "?", "\x00", "％", "é"]) + u[i:]
+
+
+class UrlsplitKernel(Stream):
+    """urllib.parse.urlsplit / urlunsplit and the SplitResult attributes vs Model.UrlSplit"""
+
+    name = "urlsplit-kernel"
+    corpus = [{"op": "split", "url": hs(p + n + r)} for p in ["http://", "//", "", "x:", " \thttp://"] for n in WEIRD_NETLOC[:24] for r in ["", "/p?q#f"]] + [
+        {"op": "unsplit", "t": [hs(x) for x in t]}
+        for t in [("http", "h", "/p", "q", "f"), ("", "", "", "", ""), ("http", "", "/p", "", ""), ("http", "", "//p", "", ""), ("http", "", "p", "", ""), ("x", "", "p", "", ""), ("", "h", "p", "", ""), ("mailto", "", "a@b", "", ""), ("", "", "//p", "q", ""), ("itms-services", "", "", "a=b", ""), ("file", "", "/etc", "", "#")]
+    ]
+
+    def cases(self, rng, tier):
+        while True:
+            if rng.random() < 0.85:
+                yield {"op": "split", "url": hs(rand_weird_url(rng))}
+            else:
+                t = [rng.choice(["", "http", "x", "ftp", "itms-services"]), rng.choice(["", "h", "u@h:1", "[::1]"]), rng.choice(["", "/p", "p", "//p", "/"]), rng.choice(["", "q", "a=b&c"]), rng.choice(["", "f", "#"])]
+                yield {"op": "unsplit", "t": [hs(x) for x in t]}
+
+    def real(self, case):
+        if case["op"] == "unsplit":
+            return hs(urlunsplit([unhs(x) for x in case["t"]]))
+        sp = urlsplit(unhs(case["url"]))
+        try:
+            port = "~" if sp.port is None else str(sp.port)
+        except ValueError:
+            port = "EXC:ValueError"
+        return ",".join(hs(x) for x in sp) + "|" + ",".join([opt(hs, sp.username), opt(hs, sp.password), hs(sp._hostinfo[0] or ""), port])
+
+    def model_line(self, case):
+        if case["op"] == "unsplit":
+            return line("urlunsplit", *case["t"])
+        b, n, _, _ = opaque_for(unhs(case["url"]))
+        return line("urlsplit", case["url"], "1" if b else "0", "1" if n else "0")
+
+    def oracle(self, case, real_out):
+        return None  # CPython's own functions: validated against the model only
+
+    def bucket(self, case, real_out):
+        if case["op"] == "unsplit":
+            return "unsplit"
+        if real_out.startswith("EXC"):
+            return real_out
+        return "split:netloc" if real_out.split(",")[1] != "-" else "split:no-netloc"
+
+
 RESERVED = {"path": "/?#", "query": "&=+#", "fragment": "", "user": ":@/?#[]"}
 
 
@@ -291,16 +376,10 @@ class IriUri(Stream):
         return hs(iri_to_uri(url) if case["dir"] == "iri2uri" else uri_to_iri(url))
 
     def model_line(self, case):
-        try:
-            comps = split_for_model(unhs(case["url"]), case["dir"])
-        except (ValueError, UnicodeError):
-            return None
-        return line(case["dir"], *comps)
-
-    def canon_model(self, case, out):
-        if "," not in out:
-            return out
-        return hs(urlunsplit([unhs(x) for x in out.split(",")]))
+        # whole URL text goes to the model; only ipaddress / NFKC / lower+IDNA are evaluated here
+        url = unhs(case["url"])
+        b, n, raw, conv = opaque_for(url, case["dir"])
+        return line(case["dir"] + "-url", case["url"], "1" if b else "0", "1" if n else "0", hs(raw), opt(hs, conv))
 
     def oracle(self, case, real_out):
         from werkzeug.urls import iri_to_uri, uri_to_iri
@@ -606,7 +685,7 @@ CHECK = Check(
     prop="C15",
     gen=["UrlTables"],
     modules=["WzVerif.Props.C15"],
-    streams=[QuoteKernel(), IriUri(), EnvironRoundtrip(), Dispatcher()],
+    streams=[QuoteKernel(), UrlsplitKernel(), IriUri(), EnvironRoundtrip(), Dispatcher()],
     assumptions=[
         "urllib.parse.urlsplit / urlunsplit (incl. tab/CR/LF and leading C0/space stripping, port validation, scheme lower-casing) and the IDNA codec are opaque: the harness splits with urllib, applies the IDNA step with the same calls the code makes, and hands components to the model; hosts that IDNA rejects and ports urlsplit rejects are outside the URL grammar",
         "urllib.parse.quote / unquote and bytes.decode with werkzeug's codec error handler are hand-modelled from CPython 3.12 (maximal-subpart error spans) and validated by stream quote-kernel, not verified",
